@@ -166,8 +166,7 @@ def run(ctx: Context, rep) -> None:
                        message="a persisted path must be relative to the "
                        "dataset root; this value carries " + (
                            ", ".join(sorted(bad)) if bad else "no root"))
-    if n < 6 and not rep.violations:
-        raise AnalysisError(f"C20.reloc: {n} persisted-path sinks, floor 6")
+    rep.floor("C20.reloc", n, 6, "instances")
     rep.info("C20.reloc", "parameters flowing into persisted path fields: " +
              "; ".join(f"{k.split(':')[1]}({', '.join(sorted(v))})"
                        for k, v in sorted(sink_params.items())))
@@ -313,8 +312,7 @@ def run(ctx: Context, rep) -> None:
                            not (isinstance(k.value, ast.Constant) and
                                 k.value.value is False) for k in c.keywords)
                 dumps.append((fn, c, ci, excl))
-    if len(dumps) < 2:
-        raise AnalysisError(f"C20.defaults: {len(dumps)} dump sites, floor 2")
+    rep.floor("C20.defaults", len(dumps), 2, "instances")
     for fn, c, ci, excl in dumps:
         if ci is None:
             raise AnalysisError(f"{fn.loc(c)}: dumped model not resolved")
